@@ -20,7 +20,7 @@
    right"), init.hpp ("every bit e is set to function(e)").  "All bits" of a
    bitfield are its N enumerators: padding of the last storage word is not a bit
    of the bitfield (it cannot be named by any enumerator). *)
-EXTENDS Naturals, Sequences, FiniteSets, TLC, Json
+EXTENDS Naturals, Sequences, FiniteSets, TLC
 
 CONSTANT N          \* number of enumerators (fcppt::enum_::size)
 
@@ -44,12 +44,12 @@ Eq(a, b) == a = b
 HashCoherent(a, b, hashes_equal) == (a = b) => hashes_equal
 
 (* ------------------------------------------------------- the register machine
-   Two bitfield variables x and y; every operation of the public interface as an
-   action.  Results are written to x (y is the right operand); swap / copy move
-   values between the registers so that every pair of computed values meets. *)
-VARIABLES x, y, hist
-vars == <<x, y, hist>>
-
+   Two bitfield registers x and y; every operation of the public interface as an
+   operation record with its effect Eff (the variables themselves live in
+   BitfieldImpl.tla, which runs this machine in lock-step with the storage words,
+   and in the judge, which folds Eff over recorded histories).  Results are
+   written to x (y is the right operand); swap / copy move values between the
+   registers so that every pair of computed values meets. *)
 BaseOp == [op |-> "null", i |-> 0, b |-> FALSE, s |-> <<>>]
 OpE(name, i) == [BaseOp EXCEPT !.op = name, !.i = i]
 OpEB(name, i, b) == [BaseOp EXCEPT !.op = name, !.i = i, !.b = b]
@@ -66,6 +66,12 @@ ListOps == {"ilist", "init"}
 Ops == {OpE(o, i) : o \in ElemOps, i \in Elems}
        \cup {OpEB(o, i, b) : o \in ElemBoolOps, i \in Elems, b \in BOOLEAN}
        \cup {Op0(o) : o \in BinOps \cup NullaryOps}
+(* one representative per code path: idx/ore/orae go through the same proxy
+   assignment as set, the non-assigning binary operators are the assigning ones
+   applied to a copy, and x op= x is  copy; op  - used by the model checker for the
+   larger enums, where the aliases would only multiply the transitions *)
+CoreOps == {OpEB("set", i, b) : i \in Elems, b \in BOOLEAN}
+           \cup {Op0(o) : o \in {"or", "and", "xor", "not", "swap", "copy", "null"}}
 
 (* precondition of the C++ API: enumerators are in range *)
 Pre(a) ==
@@ -90,23 +96,10 @@ Eff(vx, vy, a) ==
     [] a.op = "null" -> R(Null, vy)
     [] a.op \in {"ilist", "init"} -> R(FromList(a.s), vy)
 
-Init == x = Null /\ y = Null /\ hist = <<>>
-
-Step(a) ==
-  /\ Pre(a)
-  /\ LET e == Eff(x, y, a) IN x' = e.x /\ y' = e.y
-  /\ hist' = Append(hist, a)
-
-Next == \E a \in Ops : Step(a)
-Spec == Init /\ [][Next]_vars
-View == <<x, y>>
-
-TypeOK == x \in Values /\ y \in Values
-
 (* ------------------------------------------------------------ laws (theorems
    of set algebra that TLC evaluates in every reachable state; they pin the
    definitions above to each other and fail if one of them is mistyped) *)
-Laws ==
+LawsOf(x, y) ==
   /\ Not(Not(x)) = x
   /\ Not(Or(x, y)) = And(Not(x), Not(y))
   /\ Xor(x, y) = And(Or(x, y), Not(And(x, y)))
@@ -120,8 +113,4 @@ Laws ==
   /\ InitBy([i \in Elems |-> Get(x, i)]) = x
   /\ Cardinality(Not(x)) = N - Cardinality(x)
 
-(* script emission (spec -> code): with EmitScripts as a CONSTRAINT TLC prints the
-   operation history of every generated transition *)
-EmitScripts == PrintT("SCRIPT " \o ToJson(hist))
-ShortHist == Len(hist) <= 3
 =============================================================================
